@@ -127,6 +127,11 @@ class Box:
     def __str__(self):
         return f"Autograd {type(self).__name__} with value {str(self._value)}"
 
+    def __deepcopy__(self, memo):
+        # A box is an immutable handle on a value of the trace in progress. Copying the graph
+        # recorded behind it would cut the copy off from that trace (its derivative silently lost).
+        return self
+
     @classmethod
     def register(cls, value_type):
         Box.types.add(cls)
